@@ -104,6 +104,13 @@ CHECKS = {
              "(operation, description) computed in two fresh interpreters in opposite order; deep fingerprints of all argument objects before/after "
              "each call and of every mutable default / module-level table of the repository modules along the history.",
         design='5/C20', technique='recorded call histories checked against fresh-interpreter baselines + before/after fingerprint sentinels'),
+    'C13': dict(
+        text="Runtime oracle on circuit_translator / SchematicDiagramParser: drawing programs (embedded random circuits, wire trees, labels, ground, "
+             "reverse flags, degree/sine phase input) are built with the library's own symbols and translated; an independent union-find model on the "
+             "program's grid coordinates gives the depicted netlist; components are compared by id/kind/value with a node bijection, labels and ground "
+             "by name, and the solved circuit with the exact solution of the depicted netlist; each program also under rotation, translation, rescaling, "
+             "wire splitting and reordering. One rounding-boundary defect is recorded as a known finding.",
+        design='5/C13', technique='runtime oracle: independent turtle/union-find model of the drawing program + metamorphic transforms'),
 }
 
 NOT_YET = "check not built yet in this round (work in progress; see DESIGN.md section 5)"
